@@ -123,10 +123,10 @@ CODES = [0, 3, -9, 255]
                    '(timeout thread), watcher (3 iterations); <= 2 '
                    'pre-emptions at any of the first 40 yield points; process '
                    'exits before the k-th poll() (k = 1..4) or only when '
-                   'killed; exit code in {0, 3, -9, 255} (quick: {0, 3}; quick: '
-                   '1 pre-emption when two cancellers run, and the second '
-                   'pre-emption within 8 steps of the first, exit before poll '
-                   '1..2 or never)',
+                   'killed; exit code in {0, 3, -9} (quick: {0, 3}); the second '
+                   'pre-emption within 12 steps of the first (4 when two '
+                   'cancellers run; quick: 8 / only one pre-emption, exit '
+                   'before poll 1..2 or never)',
             stubs=['sp.Popen -> fake process', 'os.killpg -> marks the fake '
                    'process killed', 'publish/advance -> recorders', 'script '
                    'writers and find_launcher -> stubs', 'locks -> cooperative '
@@ -140,6 +140,13 @@ def h_cancel_vs_watcher(sw1, sw2, ebp, code, first, two_cancel, quick=False):
         if code > 1 or ebp > 2: return
         if two_cancel and sw2: return
         if sw2 and sw2 - sw1 > 8: return     # 2nd pre-emption within 8 steps
+    else:
+        # thorough: all exit moments, exit codes {0, 3, -9}; the second
+        # pre-emption within 12 steps of the first (4 with two cancellers).
+        # (The unrestricted product - any two of 40 points x 4 codes x two
+        # cancellers - took 58 k CPU seconds for this harness alone.)
+        if code > 2: return
+        if sw2 and sw2 - sw1 > (4 if two_cancel else 12): return
     sw  = _switches(sw1, sw2, M1)
     ebp, first = conc(ebp, 0, 4), conc(first, 0, 1)
     code = CODES[conc(code, 0, 3)]
@@ -190,7 +197,7 @@ M2 = 60
                    '(work -> _handle_task -> _launch_task), control thread '
                    '(cancel for this task / for another task / none), watcher '
                    '(3 iterations); <= B pre-emptions within the first 60 '
-                   'yield points; launch fault point in {none, no launcher, '
+                   'yield points (the second within 6 steps of the first); launch fault point in {none, no launcher, '
                    'exec script, launch script, open launch.out, spawn}; '
                    'process exit before poll 1..3 or only when killed; exit '
                    'code {0, 3}')
@@ -198,6 +205,7 @@ def h_launch_vs_cancel(sw1, sw2, ebp, code, cancel, fault, B=2):
     """intake/launch racing with a cancel request and the watcher"""
     if B < 2 and sw2: return
     if sw2 and sw2 < sw1: return
+    if sw2 and sw2 - sw1 > 6: return       # 2nd pre-emption within 6 steps
     if fault and (ebp or code): return     # no process: exit is irrelevant
     sw  = _switches(sw1, sw2, M2)
     ebp, cancel, fault = conc(ebp, 0, 3), conc(cancel, 0, 2), conc(fault, 0, 5)
